@@ -498,10 +498,14 @@ impl KeyGenerator {
         let coeff_count = parms.poly_modulus_degree();
 
         // Aquire read lock
+        #[cfg(feature = "verif-hooks")]
+        crate::verif::yield_point("kg.sk.before_read");
         let read_lock = self.secret_key_array.read().unwrap();
         assert!(read_lock.len() % (coeff_count * coeff_modulus_size) == 0);
         let old_size = read_lock.len() / (coeff_count * coeff_modulus_size);
         let new_size = old_size.max(max_power);
+        #[cfg(feature = "verif-hooks")]
+        crate::verif::event("kg.sk.read", &[old_size as u64, max_power as u64]);
         if old_size == new_size {
             return;
         }
@@ -515,6 +519,8 @@ impl KeyGenerator {
         secret_key_array[..old_size * poly_size].copy_from_slice(&read_lock[..old_size * poly_size]);
         // Drop lock
         drop(read_lock);
+        #[cfg(feature = "verif-hooks")]
+        crate::verif::yield_point("kg.sk.before_compute");
         
         // Since all of the key powers in secret_key_array_ are already NTT transformed, to get the next one we simply
         // need to compute a dyadic product of the last one with the first one [which is equal to NTT(secret_key_)].
@@ -531,6 +537,8 @@ impl KeyGenerator {
         }
 
         // Aquire write lock
+        #[cfg(feature = "verif-hooks")]
+        crate::verif::yield_point("kg.sk.before_write");
         let mut write_lock = self.secret_key_array.write().unwrap();
 
         // Do we still need to update size?
@@ -538,11 +546,15 @@ impl KeyGenerator {
         let old_size = write_lock.len() / (coeff_count * coeff_modulus_size);
         let new_size = old_size.max(max_power);
         if old_size == new_size {
+            #[cfg(feature = "verif-hooks")]
+            crate::verif::event("kg.sk.write_skip", &[old_size as u64, max_power as u64]);
             return;
         }
 
         // Acquire new array
         *write_lock = secret_key_array;
+        #[cfg(feature = "verif-hooks")]
+        crate::verif::event("kg.sk.write", &[old_size as u64, max_power as u64, (write_lock.len() / (coeff_count * coeff_modulus_size)) as u64]);
         
         // Lock is dropped automatically
     }
@@ -614,7 +626,11 @@ impl KeyGenerator {
         // Assume the secret key is already transformed into NTT form.
         let d = coeff_count * coeff_modulus_size;
         // Acquire read lock
+        #[cfg(feature = "verif-hooks")]
+        crate::verif::yield_point("kg.sk.before_use");
         let read_lock = self.secret_key_array.read().unwrap();
+        #[cfg(feature = "verif-hooks")]
+        crate::verif::event("kg.sk.use", &[(read_lock.len() / d) as u64, (count + 1) as u64]);
         self.generate_kswitch_keys(&read_lock[d..], count, &mut relin_keys.keys, save_seed);
 
         // Set the parms_id
